@@ -196,7 +196,7 @@ func checkC05(r *harness.Run) harness.Coverage {
 	for _, p := range univ.PumpPairs {
 		for _, v := range append([]string{"", "a", "`1`", "@", "*"}, syms[:6]...) {
 			unit := len(p[0]) + len(p[1])
-			for _, k := range []int{1000, 65536 / unit, 65535/unit + 1} {
+			for _, k := range []int{255, 256, 257, 511, 512, 513, 1000, 1023, 1024, 1025, 4095, 4096, 4097, 65536 / unit, 65535/unit + 1} {
 				jobs = append(jobs, pj{p[0], v, p[1], k})
 			}
 		}
